@@ -19,7 +19,8 @@ EXPLANATION = (
     "==,!=,<,<=,>,>=,&,~,is_in,is_valid,is_null,scalar from Arrow's documented semantics - trusted base); (R4) one engine for "
     "every API: Parquet is parsed only in the two reader helpers, the expression handed to them derives from "
     "to_pyarrow_compute_expression(parse_filter_dict(filter)), the filter is applied on every path with an expression, "
-    "and projection follows the filter; (R5) between = GE lo AND LE hi; conjunction is an &-fold.")
+    "and projection follows the filter; (R5) between = GE lo AND LE hi; conjunction is an &-fold."
+    " Also: (R6-R10) the pruning decision, the bound codec and the bounds' attachment (shared with C13) - every scan API prunes before it filters.")
 NOT_DECIDED = ("Arrow kernel semantics (NaN, numeric coercion, pushdown == manual filter); multiset equality across APIs and "
                "batch sizes at run time")
 ASSUMPTIONS = ["Arrow: comparison with a NULL operand yields NULL; is_in(NULL, set without NULL) is False; Kleene and/invert; "
